@@ -55,6 +55,8 @@ CONFIGS = [
     ('synirr', 'hand_made', {'start': 'explicit', 'depth': '30', 'timeline': '1', 'patch': '1'}),
     ('synwild', 'hand_made', {'start': 'explicit', 'depth': '30', 'timeline': '1', 'patch': '1', 'mup': '7'}),
     ('tears', 'hand_made', {'start': 'month', 'depth': '30', 'timeline': '1', 'patch': '1'}),
+    # the start of the year: sessions that cross the end of a day and the end of a month
+    ('bbb', 'hand_made', {'start': 'year', 'depth': '30', 'timeline': '1'}),
     # track ids other than 1 and 2: AdaptationSet ids and track ids are different things
     ('syntrk', 'hand_made', {'start': 'explicit', 'depth': '30', 'timeline': '1', 'patch': '1'}),
     # a start written with a UTC offset (the same instant as the explicit one)
@@ -69,6 +71,7 @@ STARTS = {
     'epoch': [c01.NOON + TD(seconds=3.5)],
     'today': [datetime.datetime(2024, 3, 1, 23, 59, 30, tzinfo=UTC), datetime.datetime(2024, 3, 2, 0, 0, 30, tzinfo=UTC)],
     'month': [datetime.datetime(2024, 3, 1, 23, 59, 50, tzinfo=UTC), c01.NOON],
+    'year': [datetime.datetime(2024, 3, 31, 23, 59, 50, tzinfo=UTC), datetime.datetime(2024, 3, 15, 23, 59, 50, tzinfo=UTC)],
 }
 
 
@@ -184,6 +187,16 @@ def check_edge(w, acc, ci, url, T1, T2, d1, d2, dl):
         bad('publishTime-backwards', f'publishTime {d1.publish_time.isoformat()} -> {d2.publish_time.isoformat()}')
     if d2.ast < d1.ast:
         bad('availabilityStartTime-backwards', f'{d1.ast.isoformat()} -> {d2.ast.isoformat()}')
+    elif d2.ast != d1.ast:
+        # one presentation keeps its availabilityStartTime: an explicit or epoch start always, the start of the year /
+        # month while the session stays inside that year / month (away from its first two days, where the stream is
+        # deliberately made at least a day old)
+        kind = opts['start']
+        fixed = kind.startswith('explicit') or kind == 'epoch' or \
+            (kind == 'year' and T1.year == T2.year and T1.month >= 2) or \
+            (kind == 'month' and (T1.year, T1.month) == (T2.year, T2.month) and T1.day >= 3)
+        if fixed:
+            bad('availabilityStartTime-changed', f'{d1.ast.isoformat()} -> {d2.ast.isoformat()}')
     tl1, tl2 = timelines(d1), timelines(d2)
     shared = 0
     if d1.ast == d2.ast:
